@@ -133,8 +133,9 @@ def selftest(pid, repo, relevant_keys, known_keys, baseline_keys):
         counts = r[3] if len(r) > 3 else None
         if it["kind"].endswith("-unsupported"):
             out.setdefault("unsupported_inconclusive", 0)
-            if status == "inconclusive":
-                out["unsupported_inconclusive"] += 1
+            lost = status == "analysed" and counts is not None and any(below_floor(counts, floors, ru) for ru in props.RULE_TEXT)
+            if status == "inconclusive" or (lost and not [k for k in relevant_keys(keys) if k not in known_keys and k not in baseline_keys]):
+                out["unsupported_inconclusive"] += 1      # (a rule below its floor is the check's exit 2 as well)
             else:
                 out["failures"].append("%s (outside the analysable idioms) was expected to be inconclusive, got %s" % (iid, status))
             out["details"].append({"id": iid, "status": status})
